@@ -48,7 +48,7 @@ def run(ctx):
     facts = ctx.facts() or {}
     thms = ctx.build_and_audit(["NutsProofs.Props.C17"])
     required = ["allowed_lists_asymmetric", "accept_parseJWT", "accept_parseJWS", "accept_dpop", "accept_dagTx", "accept_dagTx_partial", "accept_dagTx_of_fact",
-                "fact_dag_rejects_private_jwk",
+                "fact_dag_rejects_private_jwk", "fact_dag_framing_body",
                 "accept_apiToken", "accept_jar", "accept_vcJwt", "accept_ldProof", "header_keys_ignored", "apiToken_key_header_rejected",
                 "parseJWS_splitCompact_mode_accepts_two_uncovered", "dagTx_without_private_check_accepts_private_jwk",
                 "apiToken_atLeastOne_rule_accepts_two_signatures",
